@@ -542,3 +542,47 @@ def r8(ctx):
                     '`%s` is built from %s instead of all bytes of the matched word' % (b.var_name(l), [repr(x)[:160] for x in ws or ()]), d.span)
     if n < 2:
         raise AnchorMissing('per-word byte and id tables of merge_bytes (found %d)' % n)
+
+
+@rule('C03', 'R-C03-9', 'T10 WHO (the merge table is used as trained)',
+      'BPETokenizer::new drops entries of the loaded merge table only by their id (the max_vocab_size cut `256 + id < limit`): a filter that '
+      'looks at the token bytes (e.g. "keep valid UTF-8 only") removes the intermediate merges every multi-byte character is built through '
+      '(`e2 82` on the way to `e2 82 ac`), the longer merges stay in the table but become unreachable, and the result is no longer the '
+      'canonical merge of the trained table')
+def r9(ctx):
+    from analysis.pat import has, ANY, Pred
+    from analysis.sym import core, ret_values
+    from rules.common import closure_of
+    b = bpe_body(ctx, 'tokenization::BaseTokenizer::new')
+    n = 0
+    for t in b.calls(r'HashMap::retain$|HashMap::extract_if$|Iterator::filter$|Iterator::filter_map$|HashMap::remove$'):
+        name = (t.callee_res() or '').rsplit('::', 1)[-1]
+        if name == 'remove':
+            if 'HashMap<std::vec::Vec<u8>, u32>' not in b.local_ty(t.args[0].place.local):
+                continue
+            # entries removed one by one: fine when the keys to remove were selected from the table by their id only
+            # (`for k in table.iter().filter(|(_, id)| limit <= id).map(|(k, _)| k.clone()).collect::<Vec<_>>() { table.remove(&k) }`)
+            from analysis.seq import seq_of_iter, ITEM
+            from analysis.sym import loop_source
+            lp = cfg.innermost_loop(b, t.bb)
+            nx = [c for c in b.calls(r'::next$') if lp is not None and c.bb in lp.blocks and cfg.innermost_loop(b, c.bb) is lp]
+            sg = seq_of_iter(ctx.facts, b, loop_source(b, nx[0])) if len(nx) == 1 else None
+            by_id = sg is not None and len(sg) == 1 and sg[0].kind == 'each' and core(sg[0].elem)[:3] in (('field', ITEM, 0),) and \
+                bool(sg[0].conds) and all(has(c_, ('field', ITEM, 1)) and not has(c_, ('field', ITEM, 0)) for c_, p_ in sg[0].conds) and \
+                nosite(core(sym(b, t.args[1]))) == nosite(core(('unwrap', sym(b, nx[0].dest))))
+            n += 1 if by_id else 0
+            ctx.require(by_id, b, 'table-entry-removed', 'entries are removed from the merge table only for keys selected by their merge id (line %d)' % t.span['line'],
+                        'BPETokenizer::new removes an entry of a map at line %d (keys: %s)' % (t.span['line'], [repr(x)[:160] for x in sg or ()]), t.span)
+            continue
+        rc = core(sym(b, t.args[0]))
+        if 'HashMap<std::vec::Vec<u8>, u32>' not in b.local_ty(t.args[0].place.local) and not has(rc, Pred(lambda u: u[0] == 'var' and 'merge' in str(u[1]))):
+            continue
+        clo = closure_of(ctx, sym(b, t.args[1]))
+        n += 1
+        uses_key = any(has(v, ('arg', 2, ANY)) and not has(v, ('field', ('arg', 2, ANY), 1)) for v, _ in ret_values(clo)) if name != 'retain' else \
+            any(has(v, ('arg', 2, ANY)) for v, _ in ret_values(clo))
+        ctx.require(not uses_key, b, 'table-filter-by-id', 'the merge table is cut by merge id only (line %d)' % t.span['line'],
+                    'BPETokenizer::new filters the merge table by the token bytes (line %d): intermediate merges of multi-byte characters are dropped and the '
+                    'merges built on them become unreachable' % t.span['line'], t.span)
+    if n < 1:
+        raise AnchorMissing('the max_vocab_size cut of the merge table in BPETokenizer::new')
